@@ -3,8 +3,8 @@
    [valid_plan ms ts p] (C08/Valid.v): p is a map of maps, has no unknown member, gives partitions only to subscribers
    and only existing ones, gives nothing twice, and gives every partition of every topic with a subscriber. *)
 From Coq Require Import List ZArith.
-From SV Require Import C08.Common C08.Range C08.RoundRobin C08.Sticky C08.Valid
-  C08.ProofsRangeValid C08.ProofsRR C08.ProofsSticky C08.ProofsWitness.
+From SV Require Import C08.Common C08.Range C08.RoundRobin C08.Sticky C08.StickyDirect C08.Valid
+  C08.ProofsRangeValid C08.ProofsRR C08.ProofsSticky C08.ProofsStickyTerm C08.ProofsStickyScore C08.ProofsWitness.
 Import ListNotations.
 Open Scope Z_scope.
 
@@ -58,3 +58,27 @@ Print Assumptions c08_sticky_valid_partial.
 Theorem c08_sticky_valid_refuted : ~ sticky_full_statement.
 Proof. exact sticky_full_statement_refuted. Qed.
 Print Assumptions c08_sticky_valid_refuted.
+
+(* The two ways the full statement can fail - not returning, and the revert branch of balance() - are confined to runs that make
+   a reverse-pair redirection in getTheActualPartitionToBeMoved (the sticky.pick call site; [plan_directb] is the executable test
+   "the first [fuel] passes redirect nothing", C08/StickyDirect.v).  Every direct reassignment goes to a member at least two
+   smaller and lowers the sum of squared list sizes, so: *)
+
+(* a run without redirection leaves performReassignments within phi/2 + 1 passes ([plan_bound]) *)
+Theorem c08_sticky_terminates_partial : forall fuel o ms ts, wf_members ms -> wf_topics ts ->
+  plan_directb fuel true o ms ts = true -> plan_bound o ms ts <= Z.of_nat fuel ->
+  forall p, p_res (sticky_plan_full fuel true o ms ts) <> SFuel p.
+Proof. exact sticky_terminates_direct. Qed.
+Print Assumptions c08_sticky_terminates_partial.
+
+(* and for such runs the property holds in full, without excluded class: Plan returns, and returns a valid plan (a direct run that
+   reassigned something has strictly lowered getBalanceScore, so it cannot take the revert branch) *)
+Theorem c08_sticky_valid_direct : forall fuel o ms ts, wf_members ms -> wf_topics ts ->
+  plan_directb fuel true o ms ts = true -> plan_bound o ms ts <= Z.of_nat fuel ->
+  match p_res (sticky_plan_full fuel true o ms ts) with
+  | SOk p => valid_plan ms ts p
+  | SErr => exists mm, In mm ms /\ m_ud mm = UDErr
+  | _ => False
+  end.
+Proof. exact sticky_valid_direct. Qed.
+Print Assumptions c08_sticky_valid_direct.
